@@ -1,11 +1,380 @@
+//! bwsim — deterministic simulation with fault injection for mennanov/blockwatch.
+//!
+//! Sub-commands (all driven by /verif/bin/check):
+//!   run      --prop ID --tier quick|thorough --seed N --start I --count N --stride K --offset J
+//!            [--level a|b|ab] [--replay-dir DIR] [--budget-s S]
+//!   replay   FILE
+//!   dump     --prop ID --seed N --index I [--tier T]
+//!   loghash  --prop ID --seed N --start I --count N      (determinism self-test helper)
+
+mod exec;
+mod gate;
+mod genw;
+mod hashseed;
+mod levelb;
+mod lua;
+mod model;
+mod net;
+mod oracle;
+mod props;
+mod rng;
+mod shrink;
+mod simfs;
+mod worker;
+mod world;
+
+use serde::{Deserialize, Serialize};
+use std::collections::BTreeMap;
+use std::io::Write;
 use std::time::Instant;
+
+#[derive(Serialize, Deserialize, Clone, Debug)]
+pub struct ReplayFile {
+    pub property: String,
+    pub level: String,
+    pub seed: u64,
+    pub scenario_index: u64,
+    pub clause: String,
+    pub detail: String,
+    pub signature: String,
+    pub minimised: bool,
+    pub shrink_steps: usize,
+    pub world: world::World,
+    pub plan: exec::Plan,
+    pub expected: model::Expected,
+    pub observed: serde_json::Value,
+    pub event_log: serde_json::Value,
+    #[serde(default)]
+    pub reproduced: u32,
+    #[serde(default)]
+    pub tags: Vec<String>,
+}
+
+fn arg<'a>(args: &'a [String], name: &str) -> Option<&'a str> {
+    args.iter()
+        .position(|a| a == name)
+        .and_then(|i| args.get(i + 1))
+        .map(|s| s.as_str())
+}
+
+fn arg_u64(args: &[String], name: &str, default: u64) -> u64 {
+    arg(args, name).and_then(|v| v.parse().ok()).unwrap_or(default)
+}
+
 fn main() {
-    let t = Instant::now();
-    for _ in 0..20 {
-        let p = blockwatch::language_parsers::language_parsers().unwrap();
-        std::hint::black_box(&p);
+    let args: Vec<String> = std::env::args().collect();
+    let cmd = args.get(1).map(|s| s.as_str()).unwrap_or("");
+    let code = match cmd {
+        "run" => cmd_run(&args),
+        "replay" => cmd_replay(&args),
+        "dump" => cmd_dump(&args),
+        "loghash" => cmd_loghash(&args),
+        _ => {
+            eprintln!("usage: bwsim run|replay|dump|loghash ...");
+            2
+        }
+    };
+    worker::cleanup_scratch();
+    std::process::exit(code);
+}
+
+fn cmd_dump(args: &[String]) -> i32 {
+    let prop = arg(args, "--prop").unwrap_or("C11");
+    let seed = arg_u64(args, "--seed", 1);
+    let idx = arg_u64(args, "--index", 0);
+    let thorough = arg(args, "--tier") == Some("thorough");
+    let sc = props::scenario(prop, props::scenario_seed(seed, prop, idx), thorough);
+    for (w, p) in &sc.runs {
+        let j = model::judge(w);
+        println!("{}", serde_json::to_string_pretty(&serde_json::json!({"world": w, "plan": p, "expected": j.expected, "tags": sc.tags})).unwrap());
+        for r in &j.rendered {
+            println!("----- {}\n{}", r.path, r.text);
+        }
+        break;
     }
-    println!("parsers x20: {:?}", t.elapsed());
-    let _ = reqwest::verif_transport::set_connect_hook;
-    let _ = blockwatch::verif_hooks::set_runtime_factory;
+    0
+}
+
+fn cmd_loghash(args: &[String]) -> i32 {
+    let prop = arg(args, "--prop").unwrap_or("C11");
+    let seed = arg_u64(args, "--seed", 1);
+    let start = arg_u64(args, "--start", 0);
+    let count = arg_u64(args, "--count", 10);
+    let level = arg(args, "--level").unwrap_or("a");
+    let out = std::io::stdout();
+    let mut out = out.lock();
+    for i in start..start + count {
+        let sc = props::scenario(prop, props::scenario_seed(seed, prop, i), false);
+        for (k, (w, p)) in sc.runs.iter().enumerate() {
+            let s = if level == "b" {
+                let r = levelb::run_level_b(w, p, None);
+                serde_json::to_string(&r.rr["obs"]).unwrap()
+            } else {
+                let r = worker::run_forked(w, p);
+                serde_json::to_string(&r.rr).unwrap()
+            };
+            let mut h: u64 = 0xcbf2_9ce4_8422_2325;
+            for b in s.bytes() {
+                h ^= b as u64;
+                h = h.wrapping_mul(0x0000_0100_0000_01b3);
+            }
+            writeln!(out, "{prop} {i} {k} {h:016x}").unwrap();
+        }
+    }
+    0
+}
+
+#[derive(Serialize, Default)]
+struct Summary {
+    prop: String,
+    scenarios: u64,
+    runs_a: u64,
+    runs_b: u64,
+    nontrivial: u64,
+    violations: u64,
+    signatures: Vec<String>,
+    interleavings: Vec<String>,
+    probes: BTreeMap<String, u64>,
+    faults_fired: BTreeMap<String, u64>,
+    virt_ms: u64,
+    wall_s: f64,
+    replays: Vec<serde_json::Value>,
+    samples: Vec<serde_json::Value>,
+    level_b_matrix: BTreeMap<String, u64>,
+    harness_errors: Vec<String>,
+    budget_exhausted: bool,
+}
+
+fn cmd_run(args: &[String]) -> i32 {
+    let prop = arg(args, "--prop").unwrap_or("C11").to_string();
+    let thorough = arg(args, "--tier") == Some("thorough");
+    let seed = arg_u64(args, "--seed", 1);
+    let start = arg_u64(args, "--start", 0);
+    let count = arg_u64(args, "--count", 10);
+    let stride = arg_u64(args, "--stride", 1).max(1);
+    let offset = arg_u64(args, "--offset", 0);
+    let level = arg(args, "--level").unwrap_or("a").to_string();
+    let b_every = arg_u64(args, "--b-every", 20).max(1);
+    let budget_s = arg_u64(args, "--budget-s", 3600) as f64;
+    let replay_dir = arg(args, "--replay-dir").unwrap_or("/verif/replays").to_string();
+    let max_replays = arg_u64(args, "--max-replays", 2);
+    let t0 = Instant::now();
+    let mut sum = Summary {
+        prop: prop.clone(),
+        ..Default::default()
+    };
+    let mut sigs = std::collections::BTreeSet::new();
+    let mut inters = std::collections::BTreeSet::new();
+    let mut replay_sigs = std::collections::BTreeSet::new();
+    let mut i = start + offset;
+    while i < start + count {
+        if t0.elapsed().as_secs_f64() > budget_s {
+            sum.budget_exhausted = true;
+            break;
+        }
+        let sseed = props::scenario_seed(seed, &prop, i);
+        let sc = match std::panic::catch_unwind(|| props::scenario(&prop, sseed, thorough)) {
+            Ok(s) => s,
+            Err(e) => {
+                let msg = e
+                    .downcast_ref::<String>()
+                    .cloned()
+                    .unwrap_or_else(|| "generator panic".into());
+                sum.harness_errors.push(format!("scenario {i}: {msg}"));
+                i += stride;
+                continue;
+            }
+        };
+        sum.scenarios += 1;
+        let mut reports = Vec::new();
+        if level.contains('a') {
+            for (w, p) in &sc.runs {
+                let r = worker::run_forked(w, p);
+                sum.runs_a += 1;
+                reports.push(r);
+            }
+            let st = props::stats(&sc, &reports);
+            if st.nontrivial {
+                sum.nontrivial += 1;
+                sigs.insert(st.signature.clone());
+            }
+            inters.insert(st.interleaving.clone());
+            for (k, v) in st.probes {
+                *sum.probes.entry(k).or_default() += v;
+            }
+            for (k, v) in st.faults_fired {
+                *sum.faults_fired.entry(k).or_default() += v;
+            }
+            sum.virt_ms += st.virt_ms;
+            if sum.samples.len() < 3 && st.nontrivial {
+                let (w, p) = &sc.runs[0];
+                sum.samples.push(serde_json::json!({
+                    "scenario_index": i, "seed": sseed, "tags": sc.tags, "runs": sc.runs.len(),
+                    "world": w, "plan": p,
+                    "expected": model::judge(w).expected,
+                    "observed": reports[0].rr["obs"],
+                }));
+            }
+            for (k, r) in reports.iter().enumerate() {
+                if r.mismatches.is_empty() {
+                    continue;
+                }
+                sum.violations += 1;
+                let (w, p) = &sc.runs[k];
+                handle_violation(&prop, "A", sseed, i, w, p, r, &sc, &replay_dir, max_replays, &mut replay_sigs, &mut sum);
+            }
+        }
+        if level.contains('b') && (i / stride) % b_every == 0 {
+            for (w, p) in sc.runs.iter().take(if prop == "C20" { 4 } else { 1 }) {
+                if !levelb::applicable(w) {
+                    continue;
+                }
+                let r = levelb::run_level_b(w, p, Some(&mut sum.level_b_matrix));
+                sum.runs_b += 1;
+                for n in &r.harness_notes {
+                    if sum.harness_errors.len() < 5 {
+                        sum.harness_errors.push(format!("scenario {i} level B: {n}"));
+                    }
+                }
+                if !r.mismatches.is_empty() {
+                    sum.violations += 1;
+                    handle_violation(&prop, "B", sseed, i, w, p, &r, &sc, &replay_dir, max_replays, &mut replay_sigs, &mut sum);
+                }
+            }
+        }
+        i += stride;
+    }
+    sum.signatures = sigs.into_iter().collect();
+    sum.interleavings = inters.into_iter().collect();
+    sum.wall_s = t0.elapsed().as_secs_f64();
+    println!("{}", serde_json::to_string(&sum).unwrap());
+    if !sum.harness_errors.is_empty() {
+        return 2;
+    }
+    if sum.violations > 0 { 1 } else { 0 }
+}
+
+#[allow(clippy::too_many_arguments)]
+fn handle_violation(
+    prop: &str,
+    level: &str,
+    sseed: u64,
+    index: u64,
+    w: &world::World,
+    p: &exec::Plan,
+    r: &worker::ChildReport,
+    sc: &props::Scenario,
+    replay_dir: &str,
+    max_replays: u64,
+    replay_sigs: &mut std::collections::BTreeSet<String>,
+    sum: &mut Summary,
+) {
+    let first = &r.mismatches[0];
+    let quick_sig = shrink::finding_signature(prop, &first.clause, w);
+    if replay_sigs.contains(&quick_sig) || replay_sigs.len() as u64 >= max_replays {
+        // already have a replay for this class from this worker
+        sum.replays.push(serde_json::json!({"signature": quick_sig, "clause": first.clause, "path": null, "scenario_index": index}));
+        return;
+    }
+    let runner: &dyn Fn(&world::World, &exec::Plan) -> worker::ChildReport = if level == "A" {
+        &|w, p| worker::run_forked(w, p)
+    } else {
+        &|w, p| levelb::run_level_b(w, p, None)
+    };
+    let (mw, mp, mr, steps) = shrink::minimise(w, p, &first.clause, runner, if level == "A" { 600 } else { 150 });
+    // confirm in a fresh child
+    let mut reproduced = 0;
+    let confirms = if level == "A" { 1 } else { 3 };
+    let mut last = mr.clone();
+    for _ in 0..confirms {
+        let again = runner(&mw, &mp);
+        if again.mismatches.iter().any(|m| m.clause == first.clause) {
+            reproduced += 1;
+            last = again;
+        }
+    }
+    let m = last
+        .mismatches
+        .iter()
+        .find(|m| m.clause == first.clause)
+        .cloned()
+        .unwrap_or_else(|| first.clone());
+    let sig = shrink::finding_signature(prop, &m.clause, &mw);
+    replay_sigs.insert(quick_sig);
+    replay_sigs.insert(sig.clone());
+    let rf = ReplayFile {
+        property: prop.to_string(),
+        level: level.to_string(),
+        seed: sseed,
+        scenario_index: index,
+        clause: m.clause.clone(),
+        detail: m.detail.clone(),
+        signature: sig.clone(),
+        minimised: true,
+        shrink_steps: steps,
+        expected: model::judge(&mw).expected,
+        observed: last.rr["obs"].clone(),
+        event_log: last.rr.clone(),
+        world: mw,
+        plan: mp,
+        reproduced,
+        tags: sc.tags.clone(),
+    };
+    let _ = std::fs::create_dir_all(replay_dir);
+    let path = format!("{replay_dir}/{prop}-{level}-{sseed:016x}.json");
+    let _ = std::fs::write(&path, serde_json::to_vec_pretty(&rf).unwrap());
+    sum.replays.push(serde_json::json!({
+        "signature": sig, "clause": m.clause, "detail": m.detail, "path": path,
+        "scenario_index": index, "reproduced": reproduced, "level": level,
+    }));
+}
+
+fn cmd_replay(args: &[String]) -> i32 {
+    let Some(path) = args.get(2) else {
+        eprintln!("usage: bwsim replay FILE");
+        return 2;
+    };
+    let rf: ReplayFile = match std::fs::read(path).map_err(|e| e.to_string()).and_then(|b| serde_json::from_slice(&b).map_err(|e| e.to_string())) {
+        Ok(r) => r,
+        Err(e) => {
+            eprintln!("cannot read replay file {path}: {e}");
+            return 2;
+        }
+    };
+    if let Some(why) = model::invalid_reason(&rf.world) {
+        eprintln!("replay world is outside the modelled language: {why}");
+        return 2;
+    }
+    let tries = if rf.level == "B" { 50 } else { 1 };
+    for attempt in 0..tries {
+        let r = if rf.level == "B" {
+            levelb::run_level_b(&rf.world, &rf.plan, None)
+        } else {
+            worker::run_forked(&rf.world, &rf.plan)
+        };
+        if let Some(m) = r.mismatches.iter().find(|m| m.clause == rf.clause) {
+            println!("expected: {}", serde_json::to_string(&model::judge(&rf.world).expected).unwrap());
+            println!("observed: {}", r.rr["obs"]);
+            println!("clause: {} — {}", m.clause, m.detail);
+            println!("signature: {}", shrink::finding_signature(&rf.property, &m.clause, &rf.world));
+            if rf.level == "A" {
+                let same = r.rr == rf.event_log;
+                println!("event log identical to the recorded one: {same}");
+            } else {
+                println!("reproduced at attempt {}", attempt + 1);
+            }
+            println!("VIOLATION property={} replay={}", rf.property, path);
+            return 1;
+        }
+        if !r.mismatches.is_empty() && attempt + 1 == tries {
+            println!("different violation now: {:?}", r.mismatches);
+        }
+    }
+    println!("not reproduced: property={} held on replay of {}", rf.property, path);
+    0
+}
+
+#[allow(dead_code)]
+fn unused() {
+    let _ = genw::expected_kind;
 }
